@@ -13,7 +13,7 @@ import (
 // tail and the settle phase. A director that does not reach its shape is
 // still a valid schedule for the safety monitors.
 
-var directorNames = []string{"figure8", "deposed-leader", "conf-both-sides", "snapshot-laggard", "unapplied-conf-restart", "transfer-laggard", "revote-after-restart", "stale-snapshot"}
+var directorNames = []string{"figure8", "deposed-leader", "conf-both-sides", "snapshot-laggard", "unapplied-conf-restart", "transfer-laggard", "revote-after-restart", "stale-snapshot", "removenode-replay"}
 
 func directorConfig(name string, rng *rand.Rand) SimConfig {
 	c := SimConfig{ElectionTick: 10, HeartbeatTick: 1, MaxInflight: 256, MaxSizePerMsg: 1 << 20, MaxCommittedSize: 1 << 20}
@@ -45,6 +45,8 @@ func directorConfig(name string, rng *rand.Rand) SimConfig {
 	case "stale-snapshot":
 		c.Voters = 3
 		c.Storage = "mem" // RocksStorage has no catch-up window behind its newest snapshot
+	case "removenode-replay":
+		c.Voters = 1
 	}
 	return c
 }
@@ -234,6 +236,8 @@ func runDirector(name string, s *Sim, rng *rand.Rand) bool {
 		return d.revoteAfterRestart()
 	case "stale-snapshot":
 		return d.staleSnapshot()
+	case "removenode-replay":
+		return d.removeNodeReplay()
 	}
 	return false
 }
@@ -1055,6 +1059,95 @@ func (d *director) staleSnapshot() bool {
 	}
 	s.Do(act("restart", L))
 	d.rounds(8)
+	d.tail(200)
+	return true
+}
+
+// confWait proposes one conf change at the leader and runs fair rounds until
+// every live replica that knows a configuration has applied it.
+func (d *director) confWait(t pb.ConfChangeType, target uint64) bool {
+	s := d.s
+	for try := 0; try < 5 && !s.Done(); try++ {
+		l := s.leader()
+		if l == nil {
+			d.rounds(3)
+			continue
+		}
+		a := act("conf", l.id)
+		a.A, a.B = uint64(t), target
+		s.Do(a)
+		for k := 0; k < 40 && !s.Done(); k++ {
+			d.rounds(1)
+			if cl := s.leader(); cl != nil {
+				has := hasID(cl.app.conf.Nodes, target) || hasID(cl.app.conf.Learners, target)
+				want := t != pb.ConfChangeRemoveNode
+				if t == pb.ConfChangeAddNode {
+					has = hasID(cl.app.conf.Nodes, target)
+				}
+				if has == want {
+					d.rounds(2)
+					return true
+				}
+			}
+		}
+	}
+	return false
+}
+
+// removeNodeReplay: a group that started with a single voter takes a
+// snapshot, removes a learner, grows to three voters; the first replica is
+// cut off as leader with an unreplicated tail, crashes, the others move on,
+// and it restarts: it replays the RemoveNode entry while its configuration
+// (from the snapshot) is still "single voter".
+func (d *director) removeNodeReplay() bool {
+	s := d.s
+	if !d.proloqueOK() {
+		return false
+	}
+	first := uint64(1)
+	if !d.confWait(pb.ConfChangeAddLearnerNode, 2) {
+		d.tail(200)
+		return true
+	}
+	d.propose(first, 1+d.rng.Intn(3))
+	d.rounds(2)
+	s.Do(act("snap", first)) // snapshot configuration: voters [1], learners [2]
+	if !d.confWait(pb.ConfChangeRemoveNode, 2) || !d.confWait(pb.ConfChangeAddNode, 3) || !d.confWait(pb.ConfChangeAddNode, 4) {
+		d.tail(200)
+		return true
+	}
+	l := s.leader()
+	if l == nil || l.id != first || s.Done() {
+		d.tail(200)
+		return true
+	}
+	d.propose(first, 1+d.rng.Intn(3))
+	d.rounds(2)
+	// the old leader is cut off and keeps appending
+	d.partition([]uint64{first})
+	d.propose(first, 2+d.rng.Intn(3))
+	if s.Done() || !s.rep(first).alive || s.rep(first).role != raft.StateLeader {
+		d.tail(200)
+		return true
+	}
+	s.Do(act("crash", first))
+	rest := []uint64{3, 4}
+	d.sideTicks(rest, 2*s.cfg.ElectionTick+5)
+	for k := 0; k < 30 && s.leader() == nil && !s.Done(); k++ {
+		d.sideTicks(rest, 2)
+	}
+	if nl := s.leader(); nl != nil {
+		d.propose(nl.id, 3+d.rng.Intn(3))
+		d.sideTicks(rest, 3)
+		d.reached("removenode-replay")
+	}
+	// restart from the snapshot: voters [1], learners [2]; replay RemoveNode 2
+	s.Do(act("restart", first))
+	for k := 0; k < 6 && !s.Done(); k++ {
+		d.ready(first)
+	}
+	s.Do(act("heal", 0))
+	d.rounds(10)
 	d.tail(200)
 	return true
 }
